@@ -94,6 +94,11 @@ def cases(draw):
     # the metamodel's generator may be replaced between two creations (metamodel.id_generator is a plain attribute;
     # bridgepoint's Domain is built without one and given one afterwards)
     swap = draw(st.integers(1, len(creations))) if draw(st.integers(0, 2)) == 0 else None
+    # loader route: the creations arrive as positional INSERT statements giving the positional values only (no
+    # referential, no unknown type); what a short row does not cover is defaulted exactly as by new()
+    if ref is None and unknown is None and draw(st.integers(0, 3)) == 0:
+        return {'classes': classes, 'ref': ref, 'unknown': unknown, 'gen': gen, 'seq': seq, 'creations': creations,
+                'swap': None, 'load': True}
     return {'classes': classes, 'ref': ref, 'unknown': unknown, 'gen': gen, 'seq': seq, 'creations': creations, 'swap': swap}
 
 
@@ -143,7 +148,38 @@ def run_case(case, res=None):
     touched = set()
     created = 0
     swapped = None
-    for crk, cr in enumerate(case['creations']):
+    loaded = None
+    if case.get('load'):
+        # class names / attribute names of the drawn pools may be SQL keywords: only the statements the dialect accepts
+        lines = ['CREATE TABLE %s (%s);' % (c['name'], ', '.join('%s %s' % (n, t) for n, t in c['attrs'])) for c in classes]
+        for cr in case['creations']:
+            c = classes[cr['cls']]
+            if cr['pos']:
+                lines.append('INSERT INTO %s VALUES (%s);' % (c['name'], ', '.join(
+                    gen_schema.sql_value(t, v) for (n, t), v in zip(c['attrs'], cr['pos']))))
+        l = xtuml.ModelLoader()
+        try:
+            l.input('\n'.join(lines))
+        except xtuml.ParsingException:
+            if res is not None:
+                res.discarded['loader route: drawn names are not accepted by the SQL dialect'] += 1
+            return
+        try:
+            m = l.build_metamodel(g)
+        except Exception as e:
+            fail('load-route-exception:' + exc_bucket(e), '%r\n%s' % (e, '\n'.join(lines)))
+        loaded = dict((ci, list(m.select_many(c['name']))) for ci, c in enumerate(classes))
+        # every defaulted id of every row was drawn before the first check
+        uid_slots = sum(1 for cr in case['creations'] if cr['pos'] for n, t in classes[cr['cls']]['attrs'] if t.upper() == 'UNIQUE_ID')
+    creations = list(case['creations'])
+    if loaded is not None:
+        # ... the creations without positional values, and one more instance of every class, go through the API afterwards:
+        # their ids are new
+        sixdec = lambda v: float('%f' % v) if isinstance(v, float) else v       # the text format carries six decimals
+        creations = [dict(cr, kw={}, pos=[sixdec(v) for v in cr['pos']]) for cr in creations if cr['pos']] + \
+                    [dict(cr, after_load=True) for cr in creations if not cr['pos']] + \
+                    [{'cls': ci, 'pos': [], 'kw': {}, 'via': 'model', 'after_load': True} for ci in range(len(classes))]
+    for crk, cr in enumerate(creations):
         if case.get('swap') is not None and crk == case['swap']:
             swapped = (g, g.peek() if case['gen'] != 'uuid' else len(g.handed))
             g = RecordingUUID()
@@ -156,7 +192,12 @@ def run_case(case, res=None):
         # rejected attempts (unknown type) included
         uid_slots += sum(1 for n, t in attrs if t.upper() == 'UNIQUE_ID' and n != 'Ref_x9')
         try:
-            if cr['via'] == 'model':
+            if loaded is not None and not cr.get('after_load'):
+                if not loaded[cr['cls']]:
+                    fail('load-route-instance-missing', 'class %s has fewer instances than INSERT statements' % c['name'])
+                inst = loaded[cr['cls']].pop(0)
+                uid_slots -= sum(1 for n, t in attrs if t.upper() == 'UNIQUE_ID' and n != 'Ref_x9')   # counted in total above
+            elif cr['via'] == 'model':
                 inst = m.new(c['name'], *cr['pos'], **cr['kw'])
             elif cr['via'] == 'metaclass':
                 inst = mc.new(*cr['pos'], **cr['kw'])
@@ -231,6 +272,8 @@ def run_case(case, res=None):
         cl = ['gen-' + case['gen']]
         if swapped is not None:
             cl.append('generator-replaced')
+        if loaded is not None:
+            cl.append('loader-route')
         if case['unknown']:
             cl.append('unknown-type')
         if case['ref']:
